@@ -35,10 +35,10 @@ CLAIMS = {
     "C05": ("The documented time/memory model as a Lean specification (`specRun`, independent of the tick generator) and theorems about it and the laws; "
             "tie: thousands of single-container runs of the real code against the specification, exact on the binary-exact lattice, either-side only at "
             "flagged float boundaries on decimal tick rates; the (law, cpus 1..128) grid of the scaling functions.", "Props/C05.lean"),
-    "C09": ("Lean theorems on the executor model; tie: lock-step with several pools, simultaneous outcomes, out-of-range pool numbers; `check_C09` "
+    "C09": ("Lean theorems on the executor model (unknown pool rejected; created = outcomes + live in every reachable world; one result per finished container; success iff no error; OVER A WHOLE EXECUTOR TICK with any pools, kills and write-outs: every result is that of a container whose operators are COMPLETED up to where it got, a success exactly when nothing is left, a failure leaves a non-empty rest that is all FAILED - `result_is_completed_prefix_then_failed`; container numbers are never re-used - `container_numbers_never_reused`); tie: lock-step with several pools, simultaneous outcomes, out-of-range pool numbers; `check_C09` "
             "(accounting, one result per container, success iff all completed, failure shape, unknown pool rejected) on every implementation trace.",
             "Props/C09.lean"),
-    "C10": ("Lean theorems on the container/pool model (boundary flag, duration max(1, ram/g), work returned intact); tie: suspension requested at "
+    "C10": ("Lean theorems on the container/pool model (boundary flag, duration max(1, ram/g), work returned intact; over a whole executor tick the containers whose write-out ends are in a suspended list, not ended, their whole unfinished suffix PENDING - `write_out_end_returns_the_unfinished_operators`); tie: suspension requested at "
             "every moment of container lives incl. write-outs of 1, 2, many ticks run to their end; `check_C10` on every implementation trace (incl. the pool balance where write-outs end); "
             "the duration clause is also measured on the real executor on decimal tick rates against exact arithmetic: the unchanged code is one tick short when ram/20*tps is an exact "
             "integer and the float quotient falls below it (open known finding D13; the exact computation changes tests/regression).",
@@ -95,23 +95,22 @@ CLAIMS.update({
             "count, neither earlier nor later; plus the segment formulas, law divisors and their monotonicity, CPU time antitone in CPUs, flat beyond each law's bound, memory profile. "
             "Tie: thousands of single-container runs of the real code against the specification, exact on the binary-exact lattice, either-side only at flagged float boundaries on "
             "decimal tick rates; the (law, cpus 1..128) grid of the real scaling functions.", "Props/C05.lean, Proofs/Profile.lean; sqrt/log laws via integer sqrt and an enclosure table"),
-    "C08": ("PARTIAL (the whole-run clause is a theorem for naive, the `eudoxia init` starter, overbook, and priority with single-operator containers; not for priority with multi-operator containers nor priority-pool). Lean theorems: (1) EXECUTION NEVER GETS STUCK: on consistent containers (head operator RUNNING once started, the rest ASSIGNED, "
+    "C08": ("PARTIAL (the whole-run clause is a theorem for every shipped scheduler in every container mode except priority-pool with single-operator containers, where it is false for the shipped code: known finding D11; the theorems start from a world whose pipelines are already registered, and amounts are integers of the quantum lattice). Lean theorems: (1) EXECUTION NEVER GETS STUCK: on consistent containers (head operator RUNNING once started, the rest ASSIGNED, "
             "every parent COMPLETED or earlier in the container) Container.tick / kill / suspend never raise; a whole pool tick and the whole Executor.run_one_tick raise ONLY AT THEIR GATES "
             "(`executor_tick_raises_only_at_the_gates`: from a ready world, after any chain of accepted Assignment constructions in dependency order and with distinct suspension requests, the tick "
             "either succeeds and leaves a ready world or refuses the commands up front - unknown pool, unknown/unsuspendable container, oversold CPU/RAM, wrong operator count - in a well-defined "
             "state), and it succeeds when the gates pass; (2) WHOLE RUNS: the naive scheduler in closed loop with the executor never raises, for every sequence of arrival batches, with "
             "single-operator containers (= the `eudoxia init` starter scheduler) and with multi-operator containers (the default), from any ready world with well-formed pipelines - by induction over "
             "ticks, carrying the ownership/readiness invariants and 'a pipeline with an operator in a container has no operator waiting'; a concrete world (diamond DAG, two pools) meets every "
-            "hypothesis (non-vacuity, checked by the kernel); likewise PRIORITY WITH SINGLE-OPERATOR CONTAINERS in closed loop with the executor never raises over whole runs (`priority_single_operator_run_never_raises`: no overcommit, pipelines arriving together distinct; the invariant carries 'queues hold distinct ready operators, one per job, with positive retry sizes' and 'no container is ever suspendable', so the pre-emption machinery provably stays idle in this mode; same concrete world); (3) per round of priority / priority-pool: no pool is asked for more CPU or RAM than it has free, assignments are a chain of accepted "
-            "constructions (no operator twice, all PENDING/FAILED before), priority's suspensions are accepted by verify_valid_suspend; overbook: C18. NOT proved: whole-run theorems for priority with multi-operator containers (where it pre-empts) and "
-            "priority-pool (for priority-pool the statement is false in one mode: known finding D11); overbook's whole-run theorem is in Props/C18; parameter validation and end-of-run aggregation of run_simulator are exercised, "
+            "hypothesis (non-vacuity, checked by the kernel); likewise PRIORITY WITH SINGLE-OPERATOR CONTAINERS in closed loop with the executor never raises over whole runs (`priority_single_operator_run_never_raises`: no overcommit, pipelines arriving together distinct; the invariant carries 'queues hold distinct ready operators, one per job, with positive retry sizes' and 'no container is ever suspendable', so the pre-emption machinery provably stays idle in this mode; same concrete world); PRIORITY-POOL WITH MULTI-OPERATOR CONTAINERS never raises over whole runs (`priority_pool_multi_operator_run_never_raises`: neither the executor, nor the Assignment constructor, nor the scheduler's own two assertions; the proof carries through every phase of the executor tick that a failed result's unfinished suffix is non-empty and all FAILED, and that a pool's free CPU is zero exactly when its free RAM is); PRIORITY WITH MULTI-OPERATOR CONTAINERS - the mode in which it pre-empts - never raises over whole runs (`priority_multi_operator_run_never_raises`, no overcommit: the invariant carries the whole suspension life cycle - requested once, of a running suspendable container; written out with the job remembered under a container number that is never re-used; handed back with the unfinished suffix PENDING; re-queued exactly once with exactly that suffix and the old allocation - together with 'each queued job is all the unfinished work of its pipeline'; concrete world checked by the kernel); `executor_tick_with_suspensions_succeeds_when_the_gates_pass`; (3) per round of priority / priority-pool: no pool is asked for more CPU or RAM than it has free, assignments are a chain of accepted "
+            "constructions (no operator twice, all PENDING/FAILED before), priority's suspensions are accepted by verify_valid_suspend; overbook: C18. NOT proved: priority-pool with single-operator containers (false for the shipped code: known finding D11); priority under memory overcommit; that a real run's initial world meets the hypotheses beyond the concrete examples; overbook's whole-run theorem is in Props/C18; parameter validation and end-of-run aggregation of run_simulator are exercised, "
             "not modelled. Tie: closed-loop lock-step of each real scheduler + real Executor against the model on generated configurations (tiny pools, coarse ticks, zero-tick segments, both container "
             "modes, DAGs, fractional pool sizes), run_simulator end-to-end incl. the `eudoxia init` template and runs shorter than a tick; `check_C08` on every implementation trace.",
-            "Props/C08.lean; Proofs/Progress.lean, Live.lean, WorldLive.lean, NaiveSafe.lean, NaiveLoop.lean, NaiveMulti.lean, NaiveExample.lean, PrioBudget.lean, CtrKept.lean, PriorityLoop.lean, PriorityExample.lean (about 5 000 lines of proof)"),
+            "Props/C08.lean; Proofs/Progress.lean, Live.lean, WorldLive.lean, NaiveSafe.lean, NaiveLoop.lean, NaiveMulti.lean, NaiveExample.lean, PrioBudget.lean, CtrKept.lean, PriorityLoop.lean, PriorityExample.lean, PoolLoop.lean, PoolExample.lean, Dead.lean, DeadSusp.lean, WorldDead.lean, WorldDeadSusp.lean, GatesSusp.lean, Cids.lean, PrioMulti.lean, PrioMultiExample.lean (about 10 000 lines of proof)"),
     "C12": ("Lean theorems, for every world and queue state, per round of the priority scheduler: each queue run consumes a prefix of its FIFO queue and assigns in queue order; a lower "
             "queue is served only if the higher one was drained, and anything left waiting implies every pool is out of free CPU or RAM in the scheduler's accounting (strict priority + work "
             "conservation); the chosen pool is open and has the most free RAM; suspensions only while a query job is still waiting, at most one per waiting query job, only active non-query "
-            "containers at an operator boundary; a job remembered under a container found in a suspended list is put back into its queue. before its main loop a round only appends to the queues (`queues_only_grow_at_the_end`), so with head-first consumption equal-priority work is served "
+            "containers at an operator boundary; a job remembered under a container found in a suspended list is put back into its queue; OVER WHOLE RUNS (`suspended_work_is_offered_again_whole_in_every_round_of_every_run`): under the loop invariant of priority with multi-operator containers - which every round and tick of every run re-establishes (C08) - every container whose write-out ended in the last tick gets a job holding exactly its unfinished suffix into the waiting queues in the very next round. before its main loop a round only appends to the queues (`queues_only_grow_at_the_end`), so with head-first consumption equal-priority work is served "
             "first come, first served across rounds. NOT proved: the link from queue membership to 'ready pending operator' (checked on traces). Tie: closed-loop lock-step incl. preemption scenarios with single-tick suspensions, exact-fit pools; "
             "`check_C12` (order, conservation, preemption rules, re-offer) on every implementation trace.", "Props/C12.lean"),
     "C16": ("Lean theorems: the class invariant of the three queues holds initially and is kept by every round (so at every round of every run); given it, every assignment of query or "
@@ -119,7 +118,7 @@ CLAIMS.update({
             "queued together as one job; a retry whose doubled request reaches half of the pool is never assigned; the scheduler's own assertion cannot be tripped by the Assignment "
             "constructor. OVER WHOLE RUNS (`classes_stay_apart_over_whole_runs`): from a world in which every container sits where its class belongs (e.g. a fresh one), every run of scheduler + executor "
             "that reaches its end - and every prefix of it - ends in such a world: at no tick boundary is there a batch container on pool 0, a query/interactive container on pool 1, or a write-out in "
-            "progress, retries included (the container property is carried through ticks, kills and collections by a generic 'kept by the executor' lemma). Tie: closed-loop lock-step on two pools with mixed priorities and OOM retries; `check_C16` on every implementation trace.", "Props/C16.lean"),
+            "progress, retries included (the container property is carried through ticks, kills and collections by a generic 'kept by the executor' lemma); with multi-operator containers the run is moreover proved to reach its end (`run_completes_with_classes_apart`, concrete world `run_completes_in_a_concrete_world`), so the separation statement is not vacuous. Tie: closed-loop lock-step on two pools with mixed priorities and OOM retries; `check_C16` on every implementation trace.", "Props/C16.lean"),
     "C17": ("Lean theorems about the naive scheduler's round for every queue and world: at most one container per pool, sized to all free CPU and RAM of that pool; pools with nothing free are "
             "skipped; FIRST COME FIRST SERVED: each pool's container goes to the first pipeline of the queue that is neither finished nor failed and has something ready, the pipelines served in a round are a subsequence of (queue ++ arrivals) in that order, the part not reached stays in place ahead of the ones scanned and kept (`first_eligible_pipeline_is_served`, `pipelines_are_served_in_queue_order`, `round_is_first_come_first_served`); work handed out belongs to a pipeline without failed operators and (single-operator mode) is one ready operator; no suspensions; "
             "in multi-operator mode everything put into one container is in dependency order; and the closed loop naive + executor never raises over whole runs in either mode (C08 theorems). "
